@@ -71,7 +71,7 @@ def _work(args):
         out = _prop.run(case)
         return dict(seed=seed, idx=idx, violation=out.violation, stats=out.stats, digest=out.digest, nontrivial=out.nontrivial,
                     harness_error=out.harness_error, sample=out.sample if idx < 3 else None, shape=out.shape,
-                    case=case if (out.violation or out.harness_error) else None, wall=time.time() - t0)
+                    case=(getattr(out, "case", None) or case) if (out.violation or out.harness_error) else None, wall=time.time() - t0)
     except runner.HarnessError as e:
         return dict(seed=seed, idx=idx, violation=None, stats={}, digest="", nontrivial=False, harness_error="harness: %s" % e,
                     sample=None, shape=None, case=None, wall=time.time() - t0)
